@@ -44,6 +44,11 @@ static double cond1_spd(const Csr<double> &A) {
     return lo > 0 ? hi / lo : 1e300;
 }
 
+// A setup exception that only some ranks see (e.g. the coarse direct solver factorises on its master rank) must not send the
+// ranks into different collectives: agree on it before anybody calls the solver.
+static bool any_rank_failed(bool mine) { int a = mine ? 1 : 0, b = 0; MPI_Allreduce(&a, &b, 1, MPI_INT, MPI_MAX, MPI_COMM_WORLD); return b != 0; }
+static const char *OTHER_RANK = "setup failed on another rank (this rank did not call the solver)";
+
 // Probe used by the predicate of the listed finding F-mpi-sa-near-zero-filtered-diagonal: replays the coarsening loop of mpi::amg
 // with the distributed smoothed aggregation (default parameters, no repartitioning) and reports - identically on all ranks -
 // whether some prolongation carries an entry of absurd magnitude (a filtered diagonal that is a cancellation residue ~1e-17 is
@@ -131,8 +136,10 @@ static void prop_solve(Tape &t, Ctx &c) {
     std::string cerr_;
     bool threw = false;
     std::unique_ptr<Solver> Sp;
-    try {
-        Sp.reset(new Solver(comm, tup, prm));
+    try { Sp.reset(new Solver(comm, tup, prm)); }
+    catch (const std::exception &e) { threw = true; cerr_ = std::string("exception on this rank: ") + e.what(); if (env_flag("VF_C12_TRACE")) std::cerr << "TRACE rank " << me << ": " << cerr_ << std::endl; }
+    if (any_rank_failed(threw)) { if (!threw) { threw = true; cerr_ = OTHER_RANK; } Sp.reset(); }
+    else try {
         Solver &S = *Sp;
         if (env_flag("VF_C12_TRACE")) { // diagnostic aid (never set by bin/check)
             if (me == 0) { boost::property_tree::write_json(std::cerr, prm); std::cerr << "TRACE prm: "; for (auto &kv : prm.get_child("precond")) std::cerr << kv.first << "=" << kv.second.data() << " "; std::cerr << "\n" << S.precond() << std::endl; }
@@ -488,7 +495,12 @@ static void prop_solve_block(Tape &t, Ctx &c) {
     std::vector<R> fl(f.begin() + dom[me], f.begin() + dom[me + 1]), xl(Al.n);
     for (auto &v : xl) for (int q = 0; q < BS; ++q) v(q) = 0;
     size_t iters = 0; double resid = 0; bool threw = false; std::string cerr_;
-    try { Solver S(comm, tup, prm); std::tie(iters, resid) = S(fl, xl); }
+    try {
+        std::unique_ptr<Solver> Sq; bool bad = false; std::string w;
+        try { Sq.reset(new Solver(comm, tup, prm)); } catch (const std::exception &e) { bad = true; w = e.what(); }
+        if (any_rank_failed(bad)) throw std::runtime_error(bad ? w : std::string(OTHER_RANK));
+        std::tie(iters, resid) = (*Sq)(fl, xl);
+    }
     catch (const std::exception &e) { threw = true; cerr_ = std::string("exception on this rank: ") + e.what(); }
     std::vector<double> flat(static_cast<size_t>(Al.n) * BS);
     for (ptrdiff_t i = 0; i < Al.n; ++i) for (int q = 0; q < BS; ++q) flat[i * BS + q] = xl[i](q);
@@ -579,15 +591,19 @@ static void prop_one_level(Tape &t, Ctx &c) {
             const ptrdiff_t row0 = dom[me];
             if (dkind == 2) prm.def_vec = [&ztab, ndv, row0](ptrdiff_t i, unsigned j) { return ztab[(row0 + i) * ndv + j]; };
             else prm.def_vec = amgcl::mpi::constant_deflation(ndv);
-            SDD S(comm, tup, prm);
-            std::tie(iters, resid) = S(fl, xl);
+            std::unique_ptr<SDD> Sq; bool bad = false; std::string w;
+            try { Sq.reset(new SDD(comm, tup, prm)); } catch (const std::exception &e) { bad = true; w = e.what(); }
+            if (any_rank_failed(bad)) throw std::runtime_error(bad ? w : std::string(OTHER_RANK));
+            std::tie(iters, resid) = (*Sq)(fl, xl);
         } else {
             typedef amgcl::mpi::make_solver<amgcl::mpi::block_preconditioner<amgcl::runtime::preconditioner<B>>, amgcl::runtime::mpi::solver::wrapper<B>> BP;
             boost::property_tree::ptree prm;
             prm.put_child("precond", lp);
             prm.put("solver.type", LSOLVER[si]); prm.put("solver.tol", 1e-8); prm.put("solver.maxiter", 300);
-            BP S(comm, tup, prm);
-            std::tie(iters, resid) = S(fl, xl);
+            std::unique_ptr<BP> Sq; bool bad = false; std::string w;
+            try { Sq.reset(new BP(comm, tup, prm)); } catch (const std::exception &e) { bad = true; w = e.what(); }
+            if (any_rank_failed(bad)) throw std::runtime_error(bad ? w : std::string(OTHER_RANK));
+            std::tie(iters, resid) = (*Sq)(fl, xl);
         }
     } catch (const std::exception &e) { threw = true; cerr_ = std::string("exception on this rank: ") + e.what(); if (env_flag("VF_C12_TRACE")) std::cerr << "TRACE rank " << me << ": " << cerr_ << std::endl; }
     std::vector<cplx> X = gather_vec(xl);
